@@ -46,8 +46,10 @@ HonestOf(h) == {h, [h EXCEPT !.verify = FALSE]} \cup {[h EXCEPT !.policy = p] : 
 \* "valid at the configured time": both endpoints may run on a configured clock (Config.Time) instead of the wall clock.
 \* clock = "ahead": the configured time lies ten days after the wall clock.  Certificate kinds by validity period:
 \* "good" is valid now and over by then, "long" is valid at both moments, "future" only at the later one.
-Trustworthy == {"good", "long", "future", "good_then_other"}
-ValidAt(k, clock) == k = "long" \/ (k \in {"good", "good_then_other"} /\ clock = "now") \/ (k = "future" /\ clock = "ahead")
+\* "good_then_rogue": the genuine encryption certificate followed by a self-signed one of the sender's own making - what
+\* counts is the certificate at the position the protocol assigns (the second one), whatever follows it
+Trustworthy == {"good", "long", "future", "good_then_other", "good_then_rogue"}
+ValidAt(k, clock) == k = "long" \/ (k \in {"good", "good_then_other", "good_then_rogue"} /\ clock = "now") \/ (k = "future" /\ clock = "ahead")
 Acceptable(k, clock) == k \in Trustworthy /\ ValidAt(k, clock)
 ClockScenarios(h) ==
   LET L == [h EXCEPT !.signCert = "long", !.encCert = "long"] IN
@@ -75,7 +77,10 @@ ScenariosOf(h) ==
   {W("signCert", k) : k \in CertKinds(h) \ {"good"}} \cup
   (IF Dual(h) THEN {W("encCert", k) : k \in CertKinds(h) \ {"good"}} \cup {W("encKey", "wrong"), [NV EXCEPT !.encKey = "wrong"]} \cup
                    \* both certificates from a CA the client does not trust, the CA's own certificate appended to the message
-                   {W2("signCert", "untrusted", "encCert", "untrusted_with_ca")}
+                   {W2("signCert", "untrusted", "encCert", "untrusted_with_ca")} \cup
+                   \* a third certificate behind the genuine pair: harmless when the server holds the genuine keys; a server that
+                   \* holds only the key of that third, self-made certificate cannot take the place of the certified one
+                   {W("encCert", "good_then_rogue"), W2("encCert", "good_then_rogue", "encKey", "wrong")}
               ELSE {W("signCert", "untrusted_with_ca")}) \cup
   {W("signKey", "wrong"), [NV EXCEPT !.signKey = "wrong"]} \cup
   (IF HasSKE(h) THEN
@@ -98,6 +103,9 @@ ScenariosOf(h) ==
     {[CA(p) EXCEPT !.cliCert = k] : k \in {"untrusted", "expired", "notyet", "none"}} \cup
     {[CA(p) EXCEPT !.cliKey = "wrong"], [CA(p) EXCEPT !.cv = "othersession"]} \cup
     (IF Dual(h) THEN {[CA(p) EXCEPT !.cv = "trailing"]} ELSE {}) \cup
+    \* the client's list starts with a CA certificate of its own making (whose key it holds and proves), followed by a
+    \* victim's certificate and the victim's issuer: the identity is the FIRST certificate, and that one chains nowhere
+    (IF Dual(h) THEN {[CA(p) EXCEPT !.cliCert = "ca_first"]} ELSE {}) \cup
     \* the client sends further certificates after its own: harmless with its own key, but possession must be proven
     \* for the FIRST certificate (the identity the server reports), not for any later one
     {[CA(p) EXCEPT !.cliCert = "good_then_other"], [CA(p) EXCEPT !.cliCert = "good_then_other", !.cliKey = "of_other"]}
